@@ -334,6 +334,157 @@ def fn_torch_pairs(items):
     return {'n': n, 'nt': nt, 'viol': viol}
 
 
+# ---------------------------------------------------------------- operand forms / mixed operand types
+def _dense(obj, N):
+    """dense matrix of a Pauli / PauliMonomial / PauliPolynomial of either package."""
+    if hasattr(obj, 'gs'):
+        gs, ps = lib.t2n(obj.gs), lib.t2n(obj.ps)
+        cs = obj.cs.detach().numpy() if hasattr(obj.cs, 'detach') else np.asarray(obj.cs)
+        out = np.zeros((2 ** N, 2 ** N), dtype=complex)
+        for g, p, c in zip(gs.reshape(-1, 2 * N), np.atleast_1d(ps), np.atleast_1d(cs)):
+            if int(p) != p:
+                raise ValueError('non-integral phase indicator %r' % (p,))
+            out = out + complex(c) * ref.mat(g, int(p))
+        return out
+    g, p = lib.t2n(obj.g), lib.t2n(obj.p)
+    if int(p) != p:
+        raise ValueError('non-integral phase indicator %r' % (p,))
+    c = getattr(obj, 'c', 1.0)
+    c = complex(c.detach().numpy()) if hasattr(c, 'detach') else complex(c)
+    return c * ref.mat(g.reshape(-1), int(p))
+
+
+def fn_mixed_types(items):
+    """item = [N, i1, pkg]: products between DIFFERENT operand classes (Pauli, PauliMonomial, PauliPolynomial, either
+    order), compared as dense matrices with dense(a) @ dense(b).  The left string i1 with all 4 phases meets three
+    fixed right operands of every class; the polynomials contain terms that commute and that anticommute with it."""
+    n = nt = 0
+    viol = []
+    for N, i1, pkg in items:
+        G = ref.all_g(N)
+        g1 = G[i1]
+        mkP, mkM, mkQ = (lib.P, lib.MONO, lib.POLY) if pkg == 'py' else (lib.tP, None, lib.tPOLY)   # torchclifford has no PauliMonomial
+        M = len(G)
+        polys = [('all-strings', G, np.arange(M) % 4, [CPOOL[i % len(CPOOL)] for i in range(M)]),
+                 ('two-terms', G[[1 % M, M - 1]], np.array([0, 3]), [1.0, 2.0]),
+                 ('three-terms', G[[M // 2, M // 3, (2 * M) // 3]], np.array([2, 1, 0]), [1j, -0.5, 2.5])]
+        monos = [(G[(i1 + 1) % M], 1, 1 + 2j), (G[M - 1], 3, -0.5), (G[M // 2], 0, 2.5)]
+        for p1 in range(4):
+            ops = {'Pauli': lambda: mkP(g1, p1)}
+            if mkM is not None:
+                ops['PauliMonomial'] = lambda: mkM(g1, p1, CPOOL[(i1 + p1) % len(CPOOL)])
+            others = {}
+            for nm, gs, ps, cs in polys:
+                others['PauliPolynomial(%s)' % nm] = (lambda gs=gs, ps=ps, cs=cs: mkQ(gs, ps, cs))
+            for k, (g, p, c) in enumerate(monos):
+                if mkM is not None:
+                    others['PauliMonomial#%d' % k] = (lambda g=g, p=p, c=c: mkM(g, p, c))
+                others['Pauli#%d' % k] = (lambda g=g, p=p: mkP(g, p))
+            for an, amk in ops.items():
+                for bn, bmk in others.items():
+                    if an == 'Pauli' and bn.startswith('Pauli#'):
+                        continue    # same-class products: legs pairs / torch_pairs
+                    for order in ('ab', 'ba'):
+                        a, b = (amk(), bmk()) if order == 'ab' else (bmk(), amk())
+                        ta, tb = (an, bn) if order == 'ab' else (bn, an)
+                        da, db = _dense(a, N), _dense(b, N)
+                        n += 1
+                        try:
+                            res = a @ b
+                        except (NotImplementedError, TypeError):
+                            continue       # operand combination not offered by the package: nothing is claimed
+                        nt += 1
+                        try:
+                            dr = _dense(res, N)
+                            ok = np.allclose(dr, da @ db, atol=1e-5)
+                            why = '' if ok else 'dense(result) != dense(a) @ dense(b)'
+                        except Exception as e:
+                            ok, why = False, 'result unreadable: %s' % e
+                        if ok and not (np.allclose(_dense(a, N), da, atol=1e-6) and np.allclose(_dense(b, N), db, atol=1e-6)):
+                            ok, why = False, 'an operand was modified by the product'
+                        if not ok:
+                            viol.append(V('C01/matmul-mixed/%s/%s@%s' % (pkg, ta.split('(')[0].split('#')[0], tb.split('(')[0].split('#')[0]), [N, i1, pkg],
+                                          '%s: %s %s @ %s (left string %s, phase %d, N=%d): %s' % (
+                                              pkg, order, ta, tb, ref.g_to_str(g1, p1), p1, N, why)))
+    return {'n': n, 'nt': nt, 'viol': viol}
+
+
+def fn_operand_reuse(items):
+    """item = [N, i1, pkg]: ONE operand object multiplied again and again.  Operand sources: elements taken from a
+    PauliList by integer indexing (views into the list's arrays; torch: float32 phase tensor), Paulis carrying a
+    0-dim tensor / numpy-scalar phase, and results of earlier products fed back as left and right factors.  After
+    the sweep the list, the operands and every kept result must still denote what they denoted when created."""
+    n = nt = 0
+    viol = []
+    for N, i1, pkg in items:
+        G = ref.all_g(N)
+        M = len(G)
+        Ps = (np.arange(M) + i1) % 4
+        if pkg == 'py':
+            L = lib.PL(G, Ps)
+            rd = lambda x: (np.asarray(x.g).astype(np.int64).reshape(-1), int(np.asarray(x.p)) % 4 if int(np.asarray(x.p)) == np.asarray(x.p) else -1)
+            lrd = lambda: (np.asarray(L.gs).astype(np.int64), np.asarray(L.ps).astype(np.int64) % 4)
+            scal = lambda g, p: lib.pc.Pauli(np.array(g, dtype=lib.INT), np.int64(p))
+        else:
+            L = lib.tPL(G, Ps)
+            t = lib.torch_mods()['torch']
+            rd = lambda x: (lib.t2n(x.g).reshape(-1), int(lib.t2n(x.p)) if float(lib.t2n(x.p)) == int(lib.t2n(x.p)) else -1)
+            lrd = lambda: (lib.t2n(L.gs), lib.t2n(L.ps))
+            scal = lambda g, p: lib.torch_mods()['tpa'].Pauli(lib.tT(g), t.tensor(float(p), dtype=t.float32))
+
+        def bad(sig, msg):
+            viol.append(V('C01/matmul-reuse/%s/%s' % (pkg, sig), [N, i1, pkg], '%s N=%d left #%d %s: %s' % (pkg, N, i1, ref.g_to_str(G[i1], Ps[i1]), msg)))
+        for form in ('list-element', 'scalar-array-phase'):
+            left = L[i1] if form == 'list-element' else scal(G[i1], Ps[i1])
+            kept = []
+            for j in range(M):
+                right = L[j] if (j % 2 == 0 or form != 'list-element') else scal(G[j], Ps[j])
+                res = left @ right
+                eg, ep = ref.mul(G[i1], Ps[i1], G[j], Ps[j])
+                n += 1
+                nt += 1
+                rg, rp = rd(res)
+                if (rg != eg).any() or rp != ep:
+                    bad(form + '/product', 'product #%d of the same left operand object with %s gives %s, matrices say %s' % (
+                        j, ref.g_to_str(G[j], Ps[j]), ref.g_to_str(rg, rp) if rp >= 0 else (rg.tolist(), rp), ref.g_to_str(eg, ep)))
+                    break
+                kept.append((res, eg, ep, j))
+            lg, lp = lrd()
+            if (lg != G).any() or (lp != Ps).any():
+                bad(form + '/list-modified', 'the PauliList the operands were taken from changed: phases %s, were %s' % (lp.tolist(), Ps.tolist()))
+                L = lib.PL(G, Ps) if pkg == 'py' else lib.tPL(G, Ps)
+            for res, eg, ep, j in kept:
+                rg, rp = rd(res)
+                if (rg != eg).any() or rp != ep:
+                    bad(form + '/result-changed-later', 'the product with %s read %s when returned and reads %s after later products' % (
+                        ref.g_to_str(G[j], Ps[j]), ref.g_to_str(eg, ep), ref.g_to_str(rg, rp) if rp >= 0 else (rg.tolist(), rp)))
+                    break
+        # results fed back: ab = a@b kept; ab@c, c@ab, ab@ab; ab itself afterwards
+        for j in range(M):
+            a, b = L[i1], L[j]
+            ab = a @ b
+            eg, ep = ref.mul(G[i1], Ps[i1], G[j], Ps[j])
+            for k in ((j + 1) % M, (3 * j + 2) % M):
+                c = L[k]
+                for what, r2, (xg, xp) in (('ab@c', ab @ c, ref.mul(eg, ep, G[k], Ps[k])), ('c@ab', c @ ab, ref.mul(G[k], Ps[k], eg, ep)),
+                                           ('ab@ab', ab @ ab, ref.mul(eg, ep, eg, ep))):
+                    n += 1
+                    nt += 1
+                    rg, rp = rd(r2)
+                    if (rg != xg).any() or rp != xp:
+                        bad('fed-back/' + what, '%s with a=%s b=%s c=%s gives %s, matrices say %s' % (
+                            what, ref.g_to_str(G[i1], Ps[i1]), ref.g_to_str(G[j], Ps[j]), ref.g_to_str(G[k], Ps[k]),
+                            ref.g_to_str(rg, rp) if rp >= 0 else (rg.tolist(), rp), ref.g_to_str(xg, xp)))
+            rg, rp = rd(ab)
+            if (rg != eg).any() or rp != ep:
+                bad('fed-back/ab-changed', 'ab = %s @ %s no longer reads %s after being used as a factor' % (
+                    ref.g_to_str(G[i1], Ps[i1]), ref.g_to_str(G[j], Ps[j]), ref.g_to_str(eg, ep)))
+        lg, lp = lrd()
+        if (lg != G).any() or (lp != Ps).any():
+            bad('fed-back/list-modified', 'the PauliList the operands were taken from changed')
+    return {'n': n, 'nt': nt, 'viol': viol}
+
+
 def legs(tier):
     Ns = (1, 2, 3, 4) if tier == 'quick' else (1, 2, 3, 4, 5)
     out = []
@@ -364,4 +515,10 @@ def legs(tier):
     out.append(Leg('torch_pairs', fn_torch_pairs, [[N, i] for N in tNs for i in range(4 ** N)], chunk=2,
                    bound='torchclifford N in %s: all ordered pairs' % (tNs,)))
     out.append(Leg('batch_torch', fn_batch, [[N, 'torch'] for N in (1, 2)], chunk=1, parallel=False))
+    mx = [[N, i, pkg] for pkg in ('py', 'torch') for N in (1, 2) for i in range(4 ** N)]
+    out.append(Leg('mixed_types', fn_mixed_types, mx, chunk=2,
+                   bound='N<=2, both packages: every left string x 4 phases as Pauli and as PauliMonomial against 3 polynomials / 3 monomials / 3 Paulis, both operand orders, as dense matrices'))
+    ru = [[N, i, pkg] for pkg in ('py', 'torch') for N in (1, 2) for i in range(4 ** N)] + [[3, i, pkg] for pkg in ('py', 'torch') for i in range(0, 64, 7 if tier == 'quick' else 1)]
+    out.append(Leg('operand_reuse', fn_operand_reuse, ru, chunk=2,
+                   bound='N<=2 (every left element; N=3: %s), both packages: one operand object (list element / scalar-array phase / earlier result) reused for all right operands; list, operands and kept results re-read afterwards' % ('every 7th' if tier == 'quick' else 'every')))
     return out
